@@ -97,6 +97,13 @@ def g_utils(repo):
                  "Definition utils_searchsorted_drop_last : bool := %s.\n" % ("true" if info["drop_last"] else "false")))
     defs.append(("utils_searchsorted_offset",
                  "Definition utils_searchsorted_offset : Z := %d.\n" % info["offset"]))
+    # logabsdet: the log-magnitude straight from torch.slogdet (never through the determinant itself, which over- and
+    # underflows long before its logarithm does)
+    fn = src.func("logabsdet")
+    body = [ast.unparse(s_) for s_ in fn.body if not (isinstance(s_, ast.Expr) and isinstance(s_.value, ast.Constant))]
+    if body not in (["(_, res) = torch.slogdet(x)", "return res"], ["_, res = torch.slogdet(x)", "return res"]):
+        raise Untranslatable("logabsdet: expected `_, res = torch.slogdet(x); return res`, found %s" % body, fn)
+    defs.append(("utils_logabsdet_is_slogdet", "Definition utils_logabsdet_is_slogdet : bool := true.\n"))
     # get_temperature
     fn = src.func("get_temperature")
     ret = [s for s in fn.body if isinstance(s, ast.Assign) and isinstance(s.targets[0], ast.Name)
